@@ -90,6 +90,13 @@ def main(argv=None):
         if a.only: jobs = [j for j in jobs if a.only in j.name]
         results = H.run_jobs(ctx.mirs, jobs, tier, seed, a.jobs)
         post = prop.post_check(ctx, results) if hasattr(prop, 'post_check') else None
+        # ---- cross-solver audit of a sample of the discharged (unsat) assertion queries
+        from . import xsolver
+        xs = None
+        if not os.environ.get('VERIF_NO_XSOLVER'):
+            try: xs = xsolver.audit(results, tier)
+            except Exception as e: xs = {'error': f'{type(e).__name__}: {e}', 'disagreements': []}
+        for r in results: r.pop('xqueries', None)
         if post and post.get('violations'):
             # findings produced outside the job pool (e.g. natively executed exhaustive parts): triaged like all others
             results.append({'job': 'post-check', 'profile': 'dev', 'status': 'ok', 'error': None, 'stats': {}, 'wall_s': 0, 'finding_counts': {}, 'samples': [], 'fns': {}, 'models': {},
@@ -99,6 +106,8 @@ def main(argv=None):
         inconclusive = [r for r in results if r['status'] != 'ok']
         if post and post.get('functions_not_executed') and not a.only:
             inconclusive.append({'job': 'inventory', 'status': 'inconclusive', 'error': f'crash-site functions never executed by any harness path: {post["functions_not_executed"][:12]}'})
+        for dgr in (xs or {}).get('disagreements', []):
+            inconclusive.append({'job': dgr['job'], 'status': 'inconclusive', 'error': f'cross-solver audit: {dgr["solver"]} answers sat on a query z3 5.1 answered unsat (encoding not trusted, nothing is claimed)'})
         violations, known_hits = [], []
         replayed = 0
         for r in results:
@@ -131,7 +140,7 @@ def main(argv=None):
             print(f'INCONCLUSIVE property={pid} job={r["job"]}: {r["error"]}')
         status = 'violations' if violations else ('inconclusive' if inconclusive else 'held')
         write_evidence(ev_path, pid, tier, seed, prop, results, val_ok, val_bad, violations, known_hits, time.time() - t0, status, ctx,
-                       timing={'setup_s': round(t_setup, 1), 'validate_s': round(t_val, 1)}, replayed=replayed, post=post)
+                       timing={'setup_s': round(t_setup, 1), 'validate_s': round(t_val, 1)}, replayed=replayed, post=post, xsolver=xs)
         tot = lambda k: sum(r['stats'].get(k, 0) for r in results)
         print(f'{pid} {tier}: {status}; jobs={len(results)} paths={tot("paths")} queries={tot("queries")} (sat {tot("sat")}, unsat {tot("unsat")}, unknown {tot("unknown")}) '
               f'solver_s={tot("solver_s"):.1f} validated_vectors={val_ok} wall={time.time() - t0:.0f}s')
@@ -147,7 +156,7 @@ def main(argv=None):
     return rc
 
 
-def write_evidence(path, pid, tier, seed, prop, results, val_ok, val_bad, violations, known_hits, wall, status, ctx, timing=None, replayed=0, post=None):
+def write_evidence(path, pid, tier, seed, prop, results, val_ok, val_bad, violations, known_hits, wall, status, ctx, timing=None, replayed=0, post=None, xsolver=None):
     tot = lambda k: sum(r['stats'].get(k, 0) for r in results)
     fns = {}
     for r in results:
@@ -191,6 +200,7 @@ def write_evidence(path, pid, tier, seed, prop, results, val_ok, val_bad, violat
                                 for (r, f, k) in list(violations) + list(known_hits)][:20],
             'timing': timing or {},
             'inventory': post or {},
+            'cross_solver_audit': xsolver or {},
             'tree_hash': ctx.ws.hash,
         },
         'assumptions': list(getattr(prop, 'ASSUMPTIONS', [])),
